@@ -407,6 +407,10 @@ func (b *Builder) structHash(t *types.Struct) (ret []byte, pkg string) {
 		}
 		ft, _ := b.TypeName(f.Type())
 		fmt.Fprintln(h, name, ft)
+		if tag := t.Tag(i); tag != "" {
+			// Tags are part of a struct type's identity.
+			fmt.Fprintln(h, "tag", strconv.Quote(tag))
+		}
 	}
 	ret = h.Sum(b.buf[:0])
 	return
